@@ -1172,7 +1172,7 @@ func TestTokenHistory(t *testing.T) {
 
 func TestTranslatorTokenize(t *testing.T) {
 	R.Rule("TestTranslatorTokenize", "same histories and oracle with tokenize/detokenize mostly through TranslatorService.Tokenize/Detokenize (fix.Translator over the case's store), mixed with library and SQL-boundary calls on the same store")
-	runHistories(t, "TestTranslatorTokenize", profTranslator, 125, 3000)
+	runHistories(t, "TestTranslatorTokenize", profTranslator, 125, 2000)
 }
 
 func TestConcurrent(t *testing.T) {
